@@ -1,0 +1,209 @@
+//go:build verif
+
+// Contracts for the HTTP/2 server's per-frame handlers and header plumbing (server.go, headermap.go), checked by /verif/govc.
+package http2
+
+//@ -- C19: a priority parameter is "zero" only if all three components are
+//@ func PriorityParam.IsZero :: p -> r
+//@   props C19
+//@   assigns nothing
+//@   ensures [C19:priority-zero-means-all-components-zero] r <==> p.StreamDep == 0 && !p.Exclusive && p.Weight == 0
+
+//@ -- C08: a trailer key is declared at most once
+//@ pure func noDup(ss seq[string]) bool = forall i int, j int :: 0 <= i && i < j && j < len(ss) ==> ss[i] != ss[j]
+//@ func strSliceContains :: ss, s -> r
+//@   props C08
+//@   assigns nothing
+//@   ensures [C08:membership] r <==> (exists i int :: 0 <= i && i < len(ss) && ss[i] == s)
+//@   loop 1 invariant -1 <= rangeindex && rangeindex < len(ss) || (rangeindex == -1 && len(ss) == 0)
+//@   loop 1 invariant forall i int :: 0 <= i && i <= rangeindex ==> ss[i] != s
+
+//@ func httpguts.ValidTrailerHeader :: name -> ok
+//@   trusted
+//@   pure
+//@ func (*serverConn).logf
+//@   trusted
+//@   assigns nothing
+
+//@ func (*responseWriterState).declareTrailer :: rws, k
+//@   props C08
+//@   requires rws != nil && rws.conn != nil && noDup(rws.trailers)
+//@   assigns rws.trailers
+//@   ensures [C08:trailer-declared-at-most-once] noDup(rws.trailers)
+//@   ensures [C08:declared-trailers-only-grow-by-the-canonical-key] rws.trailers == old(rws.trailers) || rws.trailers == old(rws.trailers) ++ seq[string]{canon(k)}
+
+//@ -- C05: request header names reach the handler in canonical form, whatever the state of the per-connection cache
+//@ pure func commonOK() bool = commonCanonHeader != nil && (forall k string :: mapHas(commonCanonHeader, k) ==> mapGet(commonCanonHeader, k) == canon(k))
+//@ pure func cacheOK(sc *serverConn) bool = forall k string :: mapHas(sc.canonHeader, k) ==> mapGet(sc.canonHeader, k) == canon(k)
+//@ func buildCommonHeaderMaps
+//@   props C05
+//@   assigns commonLowerHeader, commonCanonHeader, mapOf(commonLowerHeader), mapOf(commonCanonHeader)
+//@   ensures [C05:common-header-table-is-canonical] commonOK()
+//@   loop 1 invariant -1 <= rangeindex && rangeindex < len(common) && commonCanonHeader != nil && commonLowerHeader != nil && commonOK()
+//@ -- sync.Once.Do(buildCommonHeaderMaps): assumed to have run the function above (its postcondition is carried over)
+//@ func buildCommonHeaderMapsOnce
+//@   trusted
+//@   assigns commonLowerHeader, commonCanonHeader, mapOf(commonLowerHeader), mapOf(commonCanonHeader)
+//@   ensures commonOK()
+
+//@ func (*serverConn).canonicalHeader :: sc, v -> cv
+//@   props C05
+//@   requires sc != nil && (sc.canonHeader != nil ==> cacheOK(sc))
+//@   requires [C05:cache-is-private-to-the-connection] sc.canonHeader != nil ==> sc.canonHeader != commonCanonHeader && sc.canonHeader != commonLowerHeader
+//@   assigns sc.canonHeader, sc.canonHeaderKeysSize, mapOf(sc.canonHeader), commonLowerHeader, commonCanonHeader, mapOf(commonLowerHeader), mapOf(commonCanonHeader)
+//@   ensures [C05:header-name-canonicalised-cache-or-not] cv == canon(v)
+//@   ensures [C05:cache-stays-canonical] sc.canonHeader != nil ==> cacheOK(sc)
+
+//@ -- C12: SETTINGS_INITIAL_WINDOW_SIZE adjusts every open stream's send window by (new - previous peer value)
+//@ pure func streamsOK(sc *serverConn) bool = sc.streams != nil && (forall id uint32 :: mapHas(sc.streams, id) ==> mapGet(sc.streams, id) != nil) && (forall a uint32, b uint32 :: mapHas(sc.streams, a) && mapHas(sc.streams, b) && a != b ==> mapGet(sc.streams, a) != mapGet(sc.streams, b))
+//@ func (*serverConn).processSettingInitialWindowSize :: sc, val -> err
+//@   props C12
+//@   requires sc != nil && streamsOK(sc)
+//@   requires [C12:value-validated-by-caller] val <= 2147483647
+//@   requires [C12:previous-setting-non-negative] sc.initialStreamSendWindowSize >= 0
+//@   assigns sc.initialStreamSendWindowSize, outflow.n
+//@   ensures [C12:initial-window-recorded] sc.initialStreamSendWindowSize == val
+//@   ensures [C12:open-streams-adjusted-by-difference-to-previous-peer-setting] err == nil ==> (forall id uint32 :: mapHas(sc.streams, id) ==> mapGet(sc.streams, id).flow.n == old(mapGet(sc.streams, id).flow.n) + (val - old(sc.initialStreamSendWindowSize)))
+//@   ensures [C12:window-overflow-is-a-flow-control-connection-error] err != nil ==> isConnErr(err, 3)
+//@   ensures [C12:connection-window-untouched] sc.flow.n == old(sc.flow.n)
+//@   loop 1 invariant sc.initialStreamSendWindowSize == val && growth == val - old(sc.initialStreamSendWindowSize) && sc.flow.n == old(sc.flow.n)
+//@   loop 1 invariant forall id uint32 :: mapHas(sc.streams, id) ==> mapGet(sc.streams, id).flow.n == old(mapGet(sc.streams, id).flow.n) + ite(visited[id], growth, 0)
+
+//@ -- C12, receive side: W(f) = f.avail + f.unsent is the window the peer has or is owed. Every byte taken from the
+//@ -- connection-level window by a DATA frame is either returned at once or sits in a request body pipe
+//@ -- (ghost owedByBodies) and is returned when the handler reads it or the stream is closed.
+//@ writers [C12:receive-window-writers] inflow fields avail,unsent only (*inflow).init,(*inflow).add,(*inflow).take,takeInflows
+//@ pure func W(f *inflow) int = f.avail + f.unsent
+//@ pure func inflowOK(f *inflow) bool = f.avail >= 0 && f.unsent >= 0 && f.avail + f.unsent <= 2147483647
+//@ ghost var owedByBodies int
+//@ pure func connLedger(sc *serverConn) int = W(sc.inflow) + owedByBodies
+
+//@ func (*pipe).Write :: p, d -> n, err
+//@   trusted
+//@   assigns p.all, owedByBodies
+//@   ensures 0 <= n && n <= len(d) && (err == nil ==> n == len(d)) && owedByBodies == old(owedByBodies) + n
+//@ func (*pipe).CloseWithError :: p, err
+//@   trusted
+//@   assigns p.all
+//@ func (*stream).endStream :: st
+//@   trusted
+//@   assigns unrestricted
+//@ -- writing a frame may finish another stream (wroteFrame -> closeStream), which returns that stream's unread body
+//@ -- bytes to the connection window: assumed to keep the ledger, and to leave stream-level windows alone
+//@ func (*serverConn).writeFrame :: sc, wr
+//@   trusted
+//@   requires inflowOK(sc.inflow)
+//@   assigns unrestricted, owedByBodies
+//@   ensures connLedger(sc) == old(connLedger(sc)) && inflowOK(sc.inflow)
+//@   ensures forall s *stream :: s.inflow.avail == old(s.inflow.avail) && s.inflow.unsent == old(s.inflow.unsent)
+
+//@ func (*DataFrame).Data :: f -> r
+//@   props C19,C12
+//@   requires f != nil && f.FrameHeader.valid
+//@   assigns nothing
+//@   ensures r == f.data
+//@ func (*DataFrame).StreamEnded :: f -> r
+//@   props C19,C13
+//@   requires f != nil
+//@   assigns nothing
+//@   ensures r <==> flag(f.FrameHeader.Flags, 1)
+
+//@ func (*serverConn).state :: sc, streamID -> state, st
+//@   props C13,C12
+//@   requires sc != nil && streamsOK(sc)
+//@   assigns nothing
+//@   ensures [C13:known-stream-reports-its-own-state] mapHas(sc.streams, streamID) ==> st == mapGet(sc.streams, streamID) && state == st.state
+//@   ensures [C13:unknown-stream-closed-iff-id-already-used] !mapHas(sc.streams, streamID) ==> st == nil && state == ite(streamID % 2 == 1, ite(streamID <= sc.maxClientStreamID, 4, 0), ite(streamID <= sc.maxPushPromiseID, 4, 0))
+
+//@ func (*serverConn).sendWindowUpdate32 :: sc, st, n
+//@   props C12
+//@   requires sc != nil && n >= 0 && inflowOK(sc.inflow) && (st != nil ==> inflowOK(st.inflow))
+//@   requires [C12:window-fits] ite(st == nil, W(sc.inflow), W(st.inflow)) + n <= 2147483647
+//@   assigns unrestricted, owedByBodies
+//@   ensures [C12:connection-credit-added-to-the-window-owed] connLedger(sc) == old(connLedger(sc)) + ite(st == nil, n, 0) && inflowOK(sc.inflow)
+//@   ensures [C12:stream-credit-added-to-the-window-owed] forall s *stream :: s != nil ==> W(s.inflow) == old(W(s.inflow)) + ite(s == st, n, 0) && (old(inflowOK(s.inflow)) ==> inflowOK(s.inflow))
+
+//@ func (*serverConn).sendWindowUpdate :: sc, st, n
+//@   props C12,C10
+//@   requires sc != nil && inflowOK(sc.inflow) && (st != nil ==> inflowOK(st.inflow))
+//@   requires [C12:no-negative-update] n >= 0
+//@   requires [C12:window-fits] ite(st == nil, W(sc.inflow), W(st.inflow)) + n <= 2147483647
+//@   assigns unrestricted, owedByBodies
+//@   ensures [C12:connection-credit-added-to-the-window-owed] connLedger(sc) == old(connLedger(sc)) + ite(st == nil, n, 0) && inflowOK(sc.inflow)
+//@   ensures [C12:stream-credit-added-to-the-window-owed] forall s *stream :: s != nil ==> W(s.inflow) == old(W(s.inflow)) + ite(s == st, n, 0) && (old(inflowOK(s.inflow)) ==> inflowOK(s.inflow))
+
+//@ func (*serverConn).processData :: sc, f -> err
+//@   props C12,C13,C10
+//@   requires sc != nil && f != nil && f.FrameHeader.valid && streamsOK(sc) && inflowOK(sc.inflow)
+//@   requires forall id uint32 :: mapHas(sc.streams, id) ==> inflowOK(mapGet(sc.streams, id).inflow)
+//@   requires [C10:open-streams-have-a-body] forall id uint32 :: mapHas(sc.streams, id) && mapGet(sc.streams, id).state == 1 ==> mapGet(sc.streams, id).body != nil
+//@   requires [C12:data-within-frame-length] len(f.data) <= f.FrameHeader.Length && f.FrameHeader.Length <= 16777215
+//@   requires [C12:ledger-within-window] connLedger(sc) <= 2147483647 && owedByBodies >= 0
+//@   assigns unrestricted, procLog, owedByBodies
+//@   ghostset procLog = procLog ++ seq[int]{0}
+//@   ensures procLog == old(procLog) ++ seq[int]{0}
+//@   ensures [C12:connection-credit-returned-for-every-byte-not-delivered-to-the-handler] connLedger(sc) == old(connLedger(sc)) && inflowOK(sc.inflow)
+//@   ensures [C13:data-on-stream-zero-or-idle-is-protocol-error] old(f.FrameHeader.StreamID) == 0 || (!old(mapHas(sc.streams, f.FrameHeader.StreamID)) && old(ite(f.FrameHeader.StreamID % 2 == 1, f.FrameHeader.StreamID > sc.maxClientStreamID, f.FrameHeader.StreamID > sc.maxPushPromiseID))) ==> isConnErr(err, 1)
+
+//@ -- C13: a handler is started only for HEADERS on a new, strictly increasing, odd stream id; every id that is
+//@ -- looked at as a new stream is recorded as used, accepted or refused
+//@ ghost var handlerStarts seq[uint32]
+//@ writers [C13:last-client-stream-id-writers] serverConn fields maxClientStreamID only (*serverConn).processHeaders,(*serverConn).upgradeRequest,(*serverConn).processFrameFromReader
+//@ writers [C13:connection-wiring-set-once] serverConn fields hs,srv,conn,handler only (*Server).serveConn
+//@ writers [C13:header-frame-immutable-while-processed] MetaHeadersFrame fields HeadersFrame,Truncated only (*Framer).readMetaFrame
+//@ -- stopping a timer / re-prioritising in the write scheduler do not touch the connection's stream bookkeeping
+//@ func timer.Stop :: t -> r
+//@   trusted
+//@   assigns nothing
+//@ func WriteScheduler.AdjustStream :: ws, streamID, priority
+//@   trusted
+//@   assigns unrestricted
+//@ func (*Server).afterFunc :: s, d, f -> t
+//@   trusted
+//@   assigns nothing
+//@ func net.Conn.SetReadDeadline :: c, t -> err
+//@   trusted
+//@   assigns nothing
+//@ func (*serverConn).scheduleHandler :: sc, streamID, rw, req, handler -> err
+//@   trusted
+//@   assigns unrestricted, handlerStarts
+//@   ensures handlerStarts == old(handlerStarts) ++ seq[uint32]{streamID}
+//@ func (*stream).processTrailerHeaders :: st, f -> err
+//@   trusted
+//@   assigns unrestricted
+//@ func (*serverConn).newStream :: sc, id, pusherID, state -> st
+//@   trusted
+//@   assigns unrestricted
+//@   ensures st != nil && st.id == id
+//@ func (*serverConn).checkPriority :: sc, streamID, p -> err
+//@   trusted
+//@   assigns nothing
+//@ func (*serverConn).newWriterAndRequest :: sc, st, f -> rw, req, err
+//@   trusted
+//@   assigns unrestricted
+//@   ensures err == nil ==> req != nil && isptr(requestBody, req.Body) && unboxptr(requestBody, req.Body) != nil
+//@ func checkValidHTTP2RequestHeaders :: h -> err
+//@   trusted
+//@   pure
+//@ func new400Handler :: err -> h
+//@   trusted
+//@   pure
+//@ func (*MetaHeadersFrame).StreamEnded
+//@   inline
+
+//@ func (*serverConn).processHeaders :: sc, f -> err
+//@   props C13,C10
+//@   requires sc != nil && f != nil && f.HeadersFrame != nil && sc.streams != nil && sc.hs != nil && sc.srv != nil && sc.handler != nil && sc.conn != nil && sc.writeSched != nil && sc.curClientStreams < 4294967295
+//@   assigns unrestricted, procLog, handlerStarts
+//@   ghostset procLog = procLog ++ seq[int]{1}
+//@   ensures procLog == old(procLog) ++ seq[int]{1}
+//@   ensures [C13:headers-on-even-stream-id-is-protocol-error] old(f.HeadersFrame.FrameHeader.StreamID) % 2 != 1 ==> isConnErr(err, 1) && handlerStarts == old(handlerStarts)
+//@   ensures [C13:new-stream-id-must-exceed-all-earlier-ones] old(f.HeadersFrame.FrameHeader.StreamID) % 2 == 1 && !(old(mapHas(sc.streams, f.HeadersFrame.FrameHeader.StreamID)) && old(mapGet(sc.streams, f.HeadersFrame.FrameHeader.StreamID)) != nil) && old(f.HeadersFrame.FrameHeader.StreamID) <= old(sc.maxClientStreamID) ==> isConnErr(err, 1) && handlerStarts == old(handlerStarts)
+//@   ensures [C13:handler-only-on-a-new-strictly-increasing-odd-id] handlerStarts == old(handlerStarts) || (handlerStarts == old(handlerStarts) ++ seq[uint32]{old(f.HeadersFrame.FrameHeader.StreamID)} && old(f.HeadersFrame.FrameHeader.StreamID) % 2 == 1 && old(f.HeadersFrame.FrameHeader.StreamID) > old(sc.maxClientStreamID))
+//@   ensures [C13:every-new-stream-id-is-recorded-accepted-or-refused] old(f.HeadersFrame.FrameHeader.StreamID) % 2 == 1 && !(old(mapHas(sc.streams, f.HeadersFrame.FrameHeader.StreamID)) && old(mapGet(sc.streams, f.HeadersFrame.FrameHeader.StreamID)) != nil) && old(f.HeadersFrame.FrameHeader.StreamID) > old(sc.maxClientStreamID) ==> sc.maxClientStreamID == old(f.HeadersFrame.FrameHeader.StreamID)
+//@   ensures [C13:last-client-stream-id-never-decreases] sc.maxClientStreamID >= old(sc.maxClientStreamID)
+//@   ensures [C13:concurrency-limit-refuses-the-stream-without-a-handler] old(f.HeadersFrame.FrameHeader.StreamID) % 2 == 1 && !(old(mapHas(sc.streams, f.HeadersFrame.FrameHeader.StreamID)) && old(mapGet(sc.streams, f.HeadersFrame.FrameHeader.StreamID)) != nil) && old(f.HeadersFrame.FrameHeader.StreamID) > old(sc.maxClientStreamID) && old(sc.curClientStreams) + 1 > old(sc.advMaxStreams) ==> err.(StreamError) && handlerStarts == old(handlerStarts)
+
+//@ -- what the serve loop maintains between frames, and what the framer guarantees about a frame it hands over
+//@ pure func connInv(sc *serverConn) bool = streamsOK(sc) && inflowOK(sc.inflow) && (forall id uint32 :: mapHas(sc.streams, id) ==> inflowOK(mapGet(sc.streams, id).inflow)) && (forall id uint32 :: mapHas(sc.streams, id) && mapGet(sc.streams, id).state == 1 ==> mapGet(sc.streams, id).body != nil) && connLedger(sc) <= 2147483647 && owedByBodies >= 0 && sc.hs != nil && sc.srv != nil && sc.handler != nil && sc.conn != nil && sc.writeSched != nil && sc.curClientStreams < 4294967295
+//@ pure func frameWF(f Frame) bool = (isptr(DataFrame, f) ==> unboxptr(DataFrame, f).FrameHeader.valid && len(unboxptr(DataFrame, f).data) <= unboxptr(DataFrame, f).FrameHeader.Length && unboxptr(DataFrame, f).FrameHeader.Length <= 16777215)
